@@ -39,7 +39,7 @@ func runScript(lines []string, drv *vh.Driver) scriptResult {
 	for _, l := range lines {
 		if strings.HasPrefix(l, "E2E") {
 			var err error
-			w, err = newE2EWorld(l)
+			w, err = newE2EWorld(l, lines...)
 			if err != nil {
 				res.err = err
 				return res
@@ -58,7 +58,7 @@ func runScript(lines []string, drv *vh.Driver) scriptResult {
 	ctxs := map[string]bool{}
 	var canon strings.Builder
 	for n, l := range lines {
-		if l == "" || strings.HasPrefix(l, "E2E") {
+		if l == "" || strings.HasPrefix(l, "E2E") || strings.HasPrefix(l, "HS ") {
 			continue
 		}
 		if strings.HasPrefix(l, "U ") {
@@ -186,14 +186,25 @@ func shrinkScript(lines []string, drvPath string) []string {
 	if want == "" {
 		return lines
 	}
+	// the lines that DEFINE the world (validator sets per look-back height, thresholds) are not deliveries: removing one
+	// would make the remaining vote lines inconsistent with the world, so only the deliveries are shrunk
+	var world, body []string
+	for _, l := range lines {
+		if strings.HasPrefix(l, "E2E") || strings.HasPrefix(l, "HS ") || strings.HasPrefix(l, "U ") {
+			world = append(world, l)
+		} else {
+			body = append(body, l)
+		}
+	}
 	budget := 400
-	return vh.Shrink(lines, func(cand []string) bool {
+	body = vh.Shrink(body, func(cand []string) bool {
 		if budget <= 0 {
 			return false
 		}
 		budget--
-		return runScript(cand, drv).sig() == want
+		return runScript(append(append([]string{}, world...), cand...), drv).sig() == want
 	})
+	return append(world, body...)
 }
 
 func report(c *vh.Ctx, name string, lines []string, r scriptResult, shrink bool) {
